@@ -371,6 +371,7 @@ def shards(tier):
         for r in rows:
             out.append({"part": "vec", "kind": kind, "rows": r})
     out.append({"part": "pylist"})
+    out.append({"part": "nparray"})
     # first-use probes: each runs in a fresh interpreter, as the very first thing the library does there
     for what in FRESH_CALLS:
         out.append({"part": "fresh", "what": what, "__env__": {"MC_FRESH": "1"}})
@@ -559,7 +560,71 @@ def check_fresh(case, rec):
     rec.outcome((what, "unchanged"))
 
 
+def nparrays():
+    return [np.array([1, 2, 3], dtype="int64"), np.array([1.5, np.nan, 2.5]), np.array(["a", "", "b"], dtype=di.dtypes.string),
+            np.array([True, False]), np.array(["2020-01-01", "NaT"], dtype="datetime64[D]"), np.array([3, 1], dtype="uint8"),
+            np.array(["ab", "c"], dtype="U2"), np.array([], dtype="float64")]
+
+
+NPARRAY_CALLS = ["Vector", "DataFrameColumn", "DataFrame", "setitem", "setattr", "modify", "update", "Vector of Vector"]
+
+
+def check_nparray(case, rec):
+    """A caller's own NumPy ARRAY (or Vector) handed to a constructor or stored as a column: unchanged afterwards, and
+    what was built from it shares no memory with it (a later edit of either is not seen through the other)."""
+    arr = nparrays()[case["array"]]
+    call = case["call"]
+    before = snap_array(arr)
+    rec.state(("nparray", before))
+    rec.case(("nparray", call, before), bool(arr.size))
+    rec.trans()
+    n = len(arr)
+    base = di.DataFrame(k=list(range(n)))
+    try:
+        if call == "Vector":
+            out = di.Vector(arr)
+        elif call == "Vector of Vector":
+            src = di.Vector.fast(arr)
+            out = di.Vector(src)
+            arr = np.asarray(src)
+        elif call == "DataFrameColumn":
+            out = di.DataFrameColumn(arr)
+        elif call == "DataFrame":
+            out = di.DataFrame(x=arr)
+        elif call == "setitem":
+            out = base.copy()
+            out["x"] = arr
+        elif call == "setattr":
+            out = base.copy()
+            out.x = arr
+        elif call == "modify":
+            out = base.modify(x=arr)
+        else:
+            out = base.update(di.DataFrame(x=arr)) if n else base
+    except Exception as e:
+        rec.count("calls_raised")
+        rec.outcome((call, "raised", type(e).__name__))
+        return
+    if snap_array(arr) != before:
+        rec.violation(call, "argument-changed", case, "the caller's array was changed by the call")
+        return
+    outs = arrays_of(out) if not isinstance(out, np.ndarray) else [np.asarray(out)]
+    for oa in outs:
+        if oa.size and arr.size and np.shares_memory(oa, arr):
+            rec.violation(call, "shares-memory", case, f"what was built ({oa.dtype}) shares memory with the caller's array")
+            return
+    s0 = [snap_array(a) for a in outs]
+    if arr.flags.writeable:
+        scribble(arr)
+    if [snap_array(a) for a in outs] != s0:
+        rec.violation(call, "write-through-operand", case, "an edit of the caller's array afterwards was observed on the result")
+        return
+    rec.outcome((call, str(arr.dtype)))
+
+
 def check_case(case, rec):
+    if case.get("part") == "nparray":
+        return check_nparray(case, rec)
     if case.get("part") == "fresh":
         return check_fresh(case, rec)
     if case.get("part") == "pylist":
@@ -601,6 +666,12 @@ def run_shard(shard, rec):
     if shard["part"] == "fresh":
         check_case({"part": "fresh", "what": shard["what"]}, rec)
         rec.sample({"part": "fresh", "what": shard["what"]})
+        return
+    if shard["part"] == "nparray":
+        for i in range(len(nparrays())):
+            for call in NPARRAY_CALLS:
+                check_case({"part": "nparray", "array": i, "call": call}, rec)
+        rec.sample({"part": "nparray", "arrays": len(nparrays()), "calls": NPARRAY_CALLS})
         return
     if shard["part"] == "pylist":
         for i in range(len(PYLISTS)):
